@@ -20,7 +20,7 @@ def split_derived_vars(fi):
     out = set()
     for n in own_nodes(fi.node):
         if isinstance(n, ast.Assign) and isinstance(n.value, ast.Call) and isinstance(n.value.func, ast.Attribute) \
-                and n.value.func.attr == 'split':
+                and n.value.func.attr in ('split', 'splitlines', 'rsplit'):
             for t in n.targets:
                 if isinstance(t, ast.Name):
                     out.add(t.id)
@@ -40,7 +40,8 @@ def piece_loops(fi):
             it = it.args[0]
             if isinstance(tgt, ast.Tuple) and len(tgt.elts) == 2:
                 tgt = tgt.elts[1]
-        is_split = (isinstance(it, ast.Call) and isinstance(it.func, ast.Attribute) and it.func.attr == 'split') or \
+        is_split = (isinstance(it, ast.Call) and isinstance(it.func, ast.Attribute) and
+                    it.func.attr in ('split', 'splitlines', 'rsplit')) or \
             (isinstance(it, ast.Name) and it.id in sv)
         if is_split and isinstance(tgt, ast.Name):
             out.append((n, tgt.id))
